@@ -743,4 +743,97 @@ theorem run_obj_bool (hC : CfgOK C T) (x : Ectx) (K : List Frame) (env : Env) (w
       rfl
     exact run_of_scanFn (stk := K) s1
 
+
+/-! ### predicate-object lists with `;` and `,` (nested-resource mode) -/
+
+/-- the two scan functions that read a verb: `reader_scan_PredicateObjectList` and its `_Required` variant -/
+def IsPol (k : Cont) : Prop := k = .pol ∨ k = .polRequired
+
+theorem stepFn_pol {k : Cont} (hk : IsPol k) (x : Ectx) (env : Env) (c : Nat) (rest : List Nat) (o : Out)
+    (h : stepPOL C e x env c rest = .ok o) (hcur : o.cur.isSome = true) :
+    stepFn C e k x env (.rune c rest) = .ok o := by
+  rcases hk with rfl | rfl
+  · simp [stepFn, h]
+  · have : o.cur.isNone = false := by cases ho : o.cur <;> simp_all
+    simp [stepFn, h, this]
+
+/-- the keyword `a` followed by a space or a line feed -/
+theorem run_pol_a (hC : CfgOK C T) {k : Cont} (hk : IsPol k) (x : Ectx) (K : List Frame) (env : Env)
+    (ws : List Nat) (hws : Lead ws) (r1 : Nat) (hr1 : r1 = 0x20 ∨ r1 = 0x0a) (rest : List Nat) :
+    Run C e (mk (⟨x, k⟩ :: K) (ws ++ 0x61 :: r1 :: rest) env) []
+      (mk (predFrames x (.iri TtlDoc.rdfType) K) rest env) := by
+  have hv : Vis C 0x61 := vis_ascii hC (by decide) (by decide) (by decide)
+  have hsp : C.isSpace r1 = true := by rcases hr1 with rfl | rfl; exact hC.sp; exact hC.nlsp
+  have s1 : scanFn C e ⟨x, k⟩ (ws ++ 0x61 :: r1 :: rest) env =
+      .ok { cur := some ⟨{ x with pred := some (.iri TtlDoc.rdfType) }, .object⟩,
+            push := [⟨{ x with pred := some (.iri TtlDoc.rdfType) }, .objListContinue⟩], inp := rest, env := env } := by
+    rw [scanFn_lead ws hws, scanFn_vis hv]
+    apply stepFn_pol hk
+    · simp [stepPOL, hsp, polGo]
+    · rfl
+  exact run_of_scanFn (stk := K) s1
+
+theorem run_pol_iriref (hC : CfgOK C T) {k : Cont} (hk : IsPol k) (x : Ectx) (K : List Frame) (env : Env)
+    (ws : List Nat) (hws : Lead ws) (body v rest : List Nat)
+    (h : iriIRIREF C e env (0x3c :: (body ++ 0x3e :: rest)) = .ok v rest) :
+    Run C e (mk (⟨x, k⟩ :: K) (ws ++ 0x3c :: (body ++ 0x3e :: rest)) env) []
+      (mk (predFrames x (.iri v) K) rest env) := by
+  have hv : Vis C 0x3c := vis_ascii hC (by decide) (by decide) (by decide)
+  have s1 : scanFn C e ⟨x, k⟩ (ws ++ 0x3c :: (body ++ 0x3e :: rest)) env =
+      .ok { cur := some ⟨{ x with pred := some (.iri v) }, .object⟩,
+            push := [⟨{ x with pred := some (.iri v) }, .objListContinue⟩], inp := rest, env := env } := by
+    rw [scanFn_lead ws hws, scanFn_vis hv]
+    apply stepFn_pol hk
+    · simp [stepPOL, polOfTerm, termIRIREF, IriRes.toTerm, h, polGo]
+    · rfl
+  exact run_of_scanFn (stk := K) s1
+
+theorem run_pol_pname (hT : DocTablesOK T) (hC : CfgOK C T) {k : Cont} (hk : IsPol k) (x : Ectx) (K : List Frame)
+    (env : Env) (ws : List Nat) (hws : Lead ws) (p out v rest : List Nat) (hp : labelSafe C.isSpace T p = true)
+    (h : iriPName C e env (p ++ 0x3a :: (out ++ rest)) = .ok v rest) :
+    Run C e (mk (⟨x, k⟩ :: K) (ws ++ (p ++ 0x3a :: (out ++ rest))) env) []
+      (mk (predFrames x (.iri v) K) rest env) := by
+  obtain ⟨c0, r0, h0, hv, hc0, ha⟩ := pname_head hT hC hp (out ++ rest)
+  rw [h0] at h ⊢
+  have n3c : c0 ≠ 0x3c := by
+    rcases hc0 with rfl | hb
+    · decide
+    · exact base_ne hT hb 0x3c (by decide) (by decide)
+  have hbase : (c0 = 0x3a ∨ C.pnBase c0 = true) := by rw [hC.pnBase]; exact hc0
+  have s1 : scanFn C e ⟨x, k⟩ (ws ++ c0 :: r0) env =
+      .ok { cur := some ⟨{ x with pred := some (.iri v) }, .object⟩,
+            push := [⟨{ x with pred := some (.iri v) }, .objListContinue⟩], inp := rest, env := env } := by
+    rw [scanFn_lead ws hws, scanFn_vis hv]
+    apply stepFn_pol hk
+    · by_cases h61 : c0 = 0x61
+      · obtain ⟨r1, r2, hr, hsp⟩ := ha h61
+        subst hr
+        subst h61
+        simp [stepPOL, hsp, polOfTerm, termPName, IriRes.toTerm, h, polGo]
+      · simp [stepPOL, n3c, h61, hbase, polOfTerm, termPName, IriRes.toTerm, h, polGo]
+    · rfl
+  exact run_of_scanFn (stk := K) s1
+
+/-- ` ,` after an object: another object of the same predicate follows -/
+theorem run_comma (hC : CfgOK C T) (x : Ectx) (K : List Frame) (env : Env) (rest : List Nat) :
+    Run C e (mk (⟨x, .objListContinue⟩ :: K) (0x20 :: 0x2c :: rest) env) []
+      (mk (⟨x, .object⟩ :: ⟨x, .objListContinue⟩ :: K) rest env) := by
+  have hv : Vis C 0x2c := vis_ascii hC (by decide) (by decide) (by decide)
+  have s1 : scanFn C e ⟨x, .objListContinue⟩ (0x20 :: 0x2c :: rest) env =
+      .ok { cur := some ⟨x, .object⟩, push := [⟨x, .objListContinue⟩], inp := rest, env := env } := by
+    rw [scanFn_sp, scanFn_vis hv]; rfl
+  exact run_of_scanFn (stk := K) s1
+
+/-- ` ;` after the last object of a predicate: another verb follows -/
+theorem run_semicolon (hC : CfgOK C T) (x2 x1 : Ectx) (K : List Frame) (env : Env) (rest : List Nat) :
+    Run C e (mk (⟨x2, .objListContinue⟩ :: ⟨x1, .polContinue⟩ :: K) (0x20 :: 0x3b :: rest) env) []
+      (mk (⟨x1, .pol⟩ :: ⟨x1, .polContinue⟩ :: K) rest env) := by
+  have hv : Vis C 0x3b := vis_ascii hC (by decide) (by decide) (by decide)
+  have s1 : scanFn C e ⟨x2, .objListContinue⟩ (0x20 :: 0x3b :: rest) env = .ok { inp := 0x3b :: rest, env := env } := by
+    rw [scanFn_sp, scanFn_vis hv]; rfl
+  have s2 : scanFn C e ⟨x1, .polContinue⟩ (0x3b :: rest) env =
+      .ok { cur := some ⟨x1, .pol⟩, push := [⟨x1, .polContinue⟩], inp := rest, env := env } := by
+    rw [scanFn_vis hv]; rfl
+  exact (run_of_scanFn (stk := ⟨x1, .polContinue⟩ :: K) s1).trans (run_of_scanFn (stk := K) s2)
+
 end RdfModel.Proofs.C02Doc
